@@ -327,7 +327,7 @@ annotation `I` and layout `L` represents the stylesheet `ss` (`Represents`: ever
 at its address with the right kind; the built-in rules are extra templates); the oracle is `oracleOf ss d L I`, whose
 every answer is `Spec.eval` / `chooseTemplateIdx` / `toStr` itself.  Then whatever tree `Spec.transform` defines, the
 iterative engine model `Core.run` (invoker stack, walker, pending start tag) produces exactly that tree.
-Fragment: literal text, value-of, literal result elements without attributes, if, choose, for-each and
+Fragment: literal text, value-of, literal result elements with attribute value templates, if, choose, for-each and
 apply-templates without sort keys or parameters, call-template without parameters, all built-in rules; no
 variables, keys, strip-space, global variables (those are compared with the real engine, not proved).
 `exRepresents` shows the hypothesis holds for a concrete stylesheet and every document. -/
